@@ -90,7 +90,7 @@ var c07Pool = []c07Tpl{
 	{"init-self-ref-swap", "self.ref[0] <-> self.ref[1]", true, "view-init"},
 	{"array-map-impure-closure", "let m# = a.map(fun (x: Int): Int { G.counter = G.counter + x\n return x })", true, "global"},
 	{"ref-array-map-impure-closure", "let m# = ra.map(fun (x: Int): Int { ra[0] = x\n return x })", true, ""},
-	{"attach-to-struct-copy", "let at# = attach SAtt() to s\n let k# = at#[SAtt]?.k", true, ""},
+	{"attach-to-struct-copy", "let at# = attach SAtt() to s\n let k# = at#[SAtt]?.k()", true, ""},
 	{"contract-field-assign", "G.counter = 5", true, ""},
 	{"contract-array-index-assign", "G.gArr[0] = 1", true, ""},
 	{"contract-array-append", "G.gArr.append(1)", true, ""},
@@ -358,12 +358,10 @@ func (c c07Case) contract() string {
         init(_ r: auth(Mutate) &[Int], _ s: &Outer) { self.arrRef = r; self.sRef = s }
     }
     access(all) attachment SAtt for Outer {
-        access(all) let k: Int
-        view init() { self.k = 1 }
+        access(all) view fun k(): Int { return 1 }
     }
     access(all) attachment Att for Res {
-        access(all) let k: Int
-        view init() { self.k = 1 }
+        access(all) view fun k(): Int { return 1 }
     }
     access(all) struct Outer {
         access(all) var inner: Inner
